@@ -28,9 +28,18 @@ class Indentation(afmformats.AFMForceDistance):
         self._preprocessing_details = {}
         # protected fit properties
         self._fit_properties = FitProperties()
+        # obsolete fit results must not remain visible in the data columns
+        self._fit_properties.on_reset = self._discard_fit_columns
 
         # Curve rating (see `self.rate_quality`)
         self._rating = None
+
+    def _discard_fit_columns(self):
+        """Remove the columns that hold the results of a previous fit"""
+        # (`_data` does not exist yet while an instance is being copied)
+        data = getattr(self, "_data", {})
+        for col in ["fit", "fit residuals", "fit range"]:
+            data.pop(col, None)
 
     @property
     def data(self):
